@@ -421,13 +421,16 @@ class Spec:
         out, k = [], 0
         for c in cases:
             keep = []
+            faulted = False
             for l in c:
                 bad = k >= len(ch) or (ch[k] and ch[k][0] == "bad-op")
+                faulted = faulted or (k < len(ch) and any(x.startswith("fault") for x in ch[k]))
                 # `alloc-fail <k>` is translated after the harness run, keep it
                 if not bad or l.startswith("alloc-fail "):
                     keep.append(l)
                 k += 1
-            out.append(keep)
+            if not faulted:      # API misuse (e.g. stop with a suspended connection): not a legal history
+                out.append(keep)
         return out
 
     def run_cases(self, cases, failures, stats):
